@@ -96,6 +96,34 @@ Theorem C19_mq_shortcut_refuted : atomic_lenient lscript_Property_cssText__media
 Proof. exact mq_shortcut_refuted. Qed.
 Print Assumptions C19_mq_shortcut_refuted.
 
+(* ---- the two semantics are views of one: forgetting the commit flag maps every execution of a refined script to an
+   execution of its erasure, so theorems about `exec (erase s)` are theorems about `lexec s` *)
+Theorem C19_lexec_erase :
+  forall ro s fin r, lexec ro s fin r -> exec ro (erase s) (erase_run r).
+Proof. exact lexec_erase. Qed.
+Print Assumptions C19_lexec_erase.
+
+(* conversely a script without LGuard has every execution of its erasure (the refinement only removes executions in
+   which a guarded commit would run after a logged failure) *)
+Theorem C19_exec_erase_lexec :
+  forall ro s r, guard_free s = true -> exec ro (erase s) r ->
+    forall fin, exists fout, lexec ro s fin (fst r, fout, snd r).
+Proof. exact exec_erase_lexec. Qed.
+Print Assumptions C19_exec_erase_lexec.
+
+Theorem C19_atomic_erase_sound :
+  forall s, atomic (erase s) = true ->
+    forall ro fin ws f o, lexec ro s fin (ws, f, o) -> o = ORaise -> ws = [].
+Proof. exact atomic_erase_sound. Qed.
+Print Assumptions C19_atomic_erase_sound.
+
+(* the first statement, on the refined scripts of all setters (through erasure) *)
+Theorem C19_rejected_assignment_unchanged_refined_partial :
+  forall name ls, In (name, ls) lsetters -> open_finding name = false ->
+    forall ro fin ws f, lexec ro ls fin (ws, f, ORaise) -> ws = [].
+Proof. exact lsetters_raise_unchanged_partial. Qed.
+Print Assumptions C19_rejected_assignment_unchanged_refined_partial.
+
 (* the shape of the seeded regression seeded/C16-1: the commit of _element/_specificity hoisted out of the guard *)
 Example C19_ex_write_outside_guard :
   atomic_lenient (LSeq LFail (LSeq (LWrite "_specificity") (LGuard (LWrite "_seq")))) = false
